@@ -94,7 +94,7 @@ func judgeCheckAgainstGen(illFormedSet bool) func(r *h.Result) []h.Violation {
 		}
 		switch {
 		case genFailed && !checkFailed:
-			vs = append(vs, h.Violation{Symptom: "check-accepts:" + strings.Join(classSet(genDiags), "+"), Detail: "gen rejects the program but check succeeds; gen says:\n" + clip(strings.Join(genDiags, "\n"), 1000)})
+			vs = append(vs, h.Violation{Symptom: "check-accepts:" + strings.Join(classSet(genDiags), "+"), Detail: "gen rejects the program but check succeeds (batch dir " + r.Case.Dir + "); gen says:\n" + clip(strings.Join(genDiags, "\n"), 1000)})
 		case !genFailed && checkFailed && !illFormedSet:
 			vs = append(vs, h.Violation{Symptom: "check-rejects:" + strings.Join(classSet(r.CheckDiags), "+"), Detail: "gen accepts the program (and every top-level set is well-formed) but check fails:\n" + clip(strings.Join(r.CheckDiags, "\n"), 1000)})
 		case !checkFailed && illFormedSet:
@@ -285,14 +285,15 @@ func showSpecs(thorough bool) []specCase {
 				}
 				x.Choose("depth", 3)
 				x.Choose("lib", n+1)
+				x.Choose("pernode", 3) // 0 flat, 1 one named set per node inside the top-level set, 2 each of them wrapped in an inline NewSet
 			}, func(x *explore.Ctx) {
 				ch := x.Map()
-				g := &GraphSpec{N: n, Adj: adj, Nodes: make([]NodeSpec, n), Root: n - 1, InSet: true, Depth: ch["depth"]}
+				g := &GraphSpec{N: n, Adj: adj, Nodes: make([]NodeSpec, n), Root: n - 1, InSet: true, Depth: ch["depth"], PerNode: ch["pernode"] > 0, InlineWrap: ch["pernode"] == 2}
 				for i := 0; i < n; i++ {
 					g.Nodes[i].Kind = []int{NFunc, NExternal, NStruct, NStructV, NField, NPtrField, NBound, NValue}[ch[fmt.Sprintf("kind%d", i)]]
 					g.Nodes[i].Lib = i < ch["lib"]
 				}
-				g.Split = ch["lib"] > 0
+				g.Split = ch["lib"] > 0 && ch["pernode"] == 0
 				g.ShowOnly = true
 				out = append(out, specCase{fmt.Sprintf("C19/show/n=%d/dag=%d/%s", n, m, x.ID()), g})
 			})
@@ -306,11 +307,13 @@ func checkC19(c *h.Check) {
 	c.R.AlsoCheck = true
 	// ---- Part A: check agrees with gen on the accepted and rejected programs of the other families ----
 	var cases []*h.Case
-	for _, fam := range []string{"C05", "C06", "C08", "C09", "C11", "C12"} {
+	for _, fam := range []string{"C05", "C06", "C08", "C09", "C11", "C12", "C20"} {
 		col := c.Collector(fam)
 		col.Tier = "quick"
 		props := Registry[fam]
+		c20OmitBadSets = fam == "C20"
 		props(col)
+		c20OmitBadSets = false
 		for _, cs := range col.Collected {
 			if !thorough && (fam == "C06" || fam == "C08") && (strings.Contains(cs.ID, "/n=3/") || strings.Contains(cs.ID, "/n=4/") || strings.Contains(cs.ID, "/n=5/")) {
 				continue // quick tier: the graph families of C06/C08 up to 2 nodes (thorough: all)
@@ -394,7 +397,7 @@ func checkC19(c *h.Check) {
 	c.Coverage["states"] = c.DistinctPrograms()
 	c.Coverage["transitions"] = 2*len(cases) + len(scases)
 	c.Coverage["traces_validated_against_impl"] = len(cases) + len(scases)
-	c.Coverage["rule"] = "A: the accepted and rejected programs of the C05, C06, C08, C09, C11, C12 quick families (quick tier: the graph families of C06/C08 up to 2 nodes) (every rejection reason represented) plus accepted programs carrying an unused ill-formed top-level set of each kind: wire gen and wire check run on the same tree; check must fail exactly when gen fails for a package of the case or a top-level set is ill-formed, every error class gen reports must be reported by check, and check must not change the tree. B: all DAGs on <=4 nodes with node kinds {function, external input, struct pointer/value, field, pointer-to-field, binding, value} (deviation bound 2, thorough 2 on all), nesting depth 0-2, lib-package split: wire show's stdout is parsed and compared with the model: every top-level set listed with the named sets it includes, every provided type grouped under exactly its transitive set of external input types, injectors listed. Distinct = distinct rendered source."
+	c.Coverage["rule"] = "A: the accepted and rejected programs of the C05, C06, C08, C09, C11, C12, C20 quick families (quick tier: the graph families of C06/C08 up to 2 nodes) (every rejection reason represented) plus accepted programs carrying an unused ill-formed top-level set of each kind: wire gen and wire check run on the same tree; check must fail exactly when gen fails for a package of the case or a top-level set is ill-formed, every error class gen reports must be reported by check, and check must not change the tree. B: all DAGs on <=4 nodes with node kinds {function, external input, struct pointer/value, field, pointer-to-field, binding, value} (deviation bound 2, thorough 2 on all), nesting depth 0-2, lib-package split, one named set per node (also wrapped in inline NewSet calls): wire show's stdout is parsed and compared with the model: every top-level set listed with the named sets it includes, every provided type grouped under exactly its transitive set of external input types, injectors listed. Distinct = distinct rendered source."
 	if len(cases) > 0 {
 		c.Samples = append(c.Samples, map[string]interface{}{"case": cases[len(cases)/2].ID, "gen_diags": results[len(cases)/2].Root().Diags, "check_diags": results[len(cases)/2].CheckDiags})
 	}
